@@ -46,6 +46,21 @@ def all_events(d: dict):
     return out
 
 
+def framing_proj(dump: str):
+    """what framing / routing / dispatch decide — no timestamps, tempo indices, sustain shapes, HOPO or star-power values:
+    those are other properties' observables and must not raise an alarm here"""
+    d = gen.parse_dump(dump)
+    if d["err"] is not None:
+        return d["err"]
+    tr = {}
+    for k, v in sorted(d["tracks"].items()):
+        tr[k] = (v["label"], [(n["tick"], n["lanes"]) for n in v.get("notes", [])], [(a, b) for a, b, *_ in v.get("sps", [])],
+                 [(e[0], e[3]) for e in v.get("tes", [])])
+    return ("OK", d.get("meta"), [(t, r) for t, r, _ in d.get("bpm", [])], [e[:3] for e in d.get("ts", [])], d.get("anchor"),
+            [(e[0], e[3]) for e in d.get("TX", [])], [(e[0], e[3]) for e in d.get("SE", [])], [(e[0], e[3]) for e in d.get("LY", [])],
+            tr, d.get("unparsable"), d.get("unhandled"))
+
+
 def parallel(ctx: fw.Ctx, fn, chunks):
     """run fn(ctx-like args) over chunks in worker processes (thorough tier); sequential in quick tier"""
     if ctx.tier == "quick" or len(chunks) <= 1:
